@@ -126,6 +126,15 @@ def cutter_fn(kind, seed, maxpayload):
             n = min(n, maxpayload, len(b) - i)
             out.append(b[i:i + n])
             i += n
+        if kind == 'empties':
+            # WRITEs without payload sprinkled over the reply (before the first record, between records, inside one): legal packets that
+            # take part in flow control like any other
+            out2 = [b'']
+            for piece in out:
+                out2.append(piece)
+                if r.random() < 0.4:
+                    out2.append(b'')
+            return out2
         return out
     return cut
 
